@@ -48,6 +48,13 @@ auto hazard_pointer<Traits>::guard_ptr<T, MarkedPtr>::operator=(const guard_ptr&
     return *this;
   }
 
+  if (p.ptr.get() == nullptr) {
+    // nothing to protect -> no hazard pointer required (and none must be allocated)
+    reset();
+    this->ptr = p.ptr;
+    return *this;
+  }
+
   if (hp == nullptr) {
     hp = local_thread_data.alloc_hazard_pointer();
   }
